@@ -263,6 +263,81 @@ def main():
                      f"kernel-level value {nm} = {show_val(x)[:150]} but the Python methods give {show_val(y)[:150]}")
 
 
+FORM_SRC = {
+    "site lists received as parameters of statically unknown length": """
+@{DEC}
+def main(zone: grid.Grid[Any, Any], sites: ilist.IList[tuple[int, int], Any], more: ilist.IList[tuple[int, int], Any], n: int):
+    a = filled.vacate(zone, sites)
+    b = filled.fill(a, more)
+    c = filled.vacate(b, sites)
+    q = filled.fill(zone, more)
+    r = filled.vacate(filled.vacate(zone, sites), more)
+    return (a, b, c, q, r)
+""",
+    "site lists computed at run time": """
+@{DEC}
+def main(zone: grid.Grid[Any, Any], sites: ilist.IList[tuple[int, int], Any], more: ilist.IList[tuple[int, int], Any], n: int):
+    def diag(i: int):
+        return (i, 0)
+    run = ilist.map(diag, ilist.range(n))
+    a = filled.vacate(zone, run)
+    b = filled.fill(a, more)
+    c = filled.vacate(b, run)
+    q = filled.fill(zone, run)
+    r = filled.vacate(filled.vacate(zone, run), more)
+    return (a, b, c, q, r)
+""",
+}
+
+
+def kernel_level_forms(ctx):
+    """vacate / fill in every kernel kind, on square and non-square grids, with site lists whose length is not known statically"""
+    from bloqade.geometry.dialects.grid import Grid
+    from bloqade.shuttle import prelude
+    from kirin.dialects import ilist
+    FGc = FG()
+    zones = [Grid.from_positions([0.0, 1.0, 2.5], [0.0, 2.0]), Grid.from_positions([0.0], [1.0, 2.0, 4.0]), Grid.from_positions([0.0, 3.0], [0.0, 3.0]),
+             Grid.from_positions([0.0, 1.0, 2.0, 3.5], [5.0])]
+    n_ok = 0
+    for form, tsrc in FORM_SRC.items():
+        for dec in ("move", "kernel", "tweezer"):
+            src = tsrc.replace("{DEC}", dec)
+            try:
+                m = kernels.define(src, kernel=prelude.kernel)["main"]
+            except Exception as e:
+                ctx.evaluations += 1
+                ctx.fail({"kind": "kernel-rejected", "decorator": dec, "form": form[:30], "error": type(e).__name__}, {"form_src": src, "decorator": dec},
+                         f"@{dec} rejects a kernel using filled.vacate / filled.fill with {form}: {type(e).__name__}: {str(e)[:140]}")
+                continue
+            for z in zones:
+                nx, ny = z.shape
+                sites = [(0, 0), (nx - 1, ny - 1)] if nx * ny > 1 else [(0, 0)]
+                more = [(nx - 1, 0)]
+                n = min(nx, 2)
+                run = [(i, 0) for i in range(n)]
+                first = sites if "parameters" in form else run
+                a = FGc.vacate(z, first)
+                b = FGc.fill(a, more)
+                c = FGc.vacate(b, first)
+                q = FGc.fill(z, more if "parameters" in form else run)
+                r = FGc.vacate(FGc.vacate(z, first), more)
+                ctx.evaluations += 1
+                rep = {"form_src": src, "decorator": dec, "zone_shape": [nx, ny]}
+                try:
+                    got = m(z, ilist.IList(sites), ilist.IList(more), n)
+                except Exception as e:
+                    ctx.fail({"kind": "kernel-raises", "decorator": dec, "form": form[:30]}, rep, f"@{dec} kernel with {form} on a {nx}x{ny} grid raises {type(e).__name__}: {str(e)[:120]}")
+                    continue
+                bad = [nm for nm, x, y in zip("abcqr", got, (a, b, c, q, r)) if show_val(x) != show_val(y) or not (x == y) or hash(x) != hash(y)]
+                if bad:
+                    ctx.fail({"kind": "kernel-vs-method", "decorator": dec, "form": form[:30]}, rep,
+                             f"@{dec} kernel with {form} on a {nx}x{ny} grid: values {bad} differ from the Python methods")
+                else:
+                    n_ok += 1
+                    ctx.nt(("kernel-form", form, dec, nx, ny))
+    ctx.count("kernel-level vacate/fill forms x kernel kinds x grid shapes: agree with the methods", n_ok)
+
+
 def run(ctx):
     ctx.rule = ("chains of fill/vacate/shift/scale/repeat/get_view/get_parent from a grid built from positions: exhaustive = every vacancy subset of "
                 "the 1x3, 2x2, 2x3 grids x a fixed list of second operations (all views of length <= 2 incl. repeated and reversed indices, "
@@ -314,6 +389,7 @@ def run(ctx):
                 mism.append({"base": cases[i][0], "ops": cases[i][1], "model": line[:300], "impl": rendered[i][:300]})
     ctx.correspondence("Model.Filled (over GridQ) vs FilledGrid methods: underlying grid, vacancy set, positions", len(cases), mism)
     kernel_level(ctx)
+    kernel_level_forms(ctx)
     ctx.explanation = ("13 theorems, parametric in the underlying grid and its operations (so independent of bloqade.geometry's arithmetic): "
                        "denotation, cumulative fill/vacate, shift/scale commute, views re-index for ALL index selections, repeat tiles for any "
                        "shape, equality iff same underlying grid and vacancy set. Exact rational model of Grid for the correspondence; floats "
@@ -322,6 +398,16 @@ def run(ctx):
 
 def replay(data):
     inp = data["input"]
+    if "form_src" in inp:
+        class K:
+            def __init__(s): s.fails, s.evaluations = [], 0
+            def fail(s, sig, rep, what): s.fails.append((rep.get("decorator"), what))
+            def nt(s, *a): pass
+            def count(s, *a): pass
+        k = K()
+        kernel_level_forms(k)
+        mine = [w for d, w in k.fails if d == inp.get("decorator")]
+        return bool(mine), (mine or ["agrees with the methods"])[0][:200]
     if "base" not in inp:
         return True, "kernel-level replay: re-run bin/check C12"
 
